@@ -680,7 +680,9 @@ func hCall(f func() error) (err error) {
 	return f()
 }
 
-func hPanicked(err error) bool { return err != nil && strings.HasPrefix(err.Error(), "PANIC in go-git") }
+func hPanicked(err error) bool {
+	return err != nil && strings.HasPrefix(err.Error(), "PANIC in go-git")
+}
 
 // ---- loose object writer ------------------------------------------------------
 
@@ -789,4 +791,30 @@ func hKeep(root, name string) {
 		os.RemoveAll(dst)
 		hCopyTree(root, dst)
 	}
+}
+
+// hSpread maps the i-th executed case to a case index so that a run cut short
+// by the deadline has touched every region of the space (a fixed bijection of
+// [0,n): multiplication by a prime that does not divide n).
+func hSpread(i, n int) int {
+	if n < 2 {
+		return i
+	}
+	p := 7919
+	for n%p == 0 {
+		p += 2
+		for !hIsPrime(p) {
+			p += 2
+		}
+	}
+	return int((int64(i) * int64(p)) % int64(n))
+}
+
+func hIsPrime(p int) bool {
+	for d := 2; d*d <= p; d++ {
+		if p%d == 0 {
+			return false
+		}
+	}
+	return p > 1
 }
